@@ -74,6 +74,8 @@ ExpS(s, macros, files, deep) ==
          LET d == macros[s.name]
              binds == [i \in 1..Len(d.params) |-> [k |-> "const", name |-> d.params[i], e |-> ParE(s.args[i]), sid |-> s.sid]] IN
          <<[k |-> "braces", sid |-> "$x" \o s.sid, body |-> binds \o Sub(TagSeq(d.body, "x" \o s.sid))]>>
+    [] s.k = "if" -> <<[s EXCEPT !.then = Sub(s.then), !.else = Sub(s.else)]>>        \* condition not constant: both branches stay
+    [] s.k = "loop" -> <<[s EXCEPT !.body = Sub(s.body)]>>                                  \* count not constant: the loop stays
     [] s.k = "macrodef" -> IF deep THEN <<>> ELSE <<s>>
     [] s.k = "label" /\ s.hasBody -> <<[s EXCEPT !.body = Sub(s.body)]>>
     [] s.k = "braces" -> <<[s EXCEPT !.body = Sub(s.body)]>>
